@@ -1200,3 +1200,90 @@ func c14r11(rc *core.RC) {
 		rc.Unknown("module/table-copies", token.NoPos, "no loop that copies a map key by key found in decoder or encoder (confirmed: decoder.storeDecoder)")
 	}
 }
+
+// ---- C14.R12 a marshaler program is built for the type as it was received ----
+
+// marshalJSONCode(t) and marshalTextCode(t) make the program that calls t's method on the value: the interpreter
+// rebuilds an interface of type t from the address it holds. The compiler functions that call them also peel pointers
+// from their type variable (typ = typ.Elem()) to look at what is behind; the program has to be made for the type the
+// function was asked about, that is for a variable that still holds it (the parameter before it is changed, or a copy
+// taken before). A program made for the peeled type is stored under the pointer type: for a pointer-shaped T with a
+// value-receiver MarshalText, Marshal(&t) hands the method the address where it expects the value.
+func c14r12(rc *core.RC) {
+	p := rc.P
+	pk := p.Pkg("encoder")
+	if pk == nil {
+		rc.Unknown("encoder", token.NoPos, "package not found")
+		return
+	}
+	info := pk.TypesInfo
+	n := 0
+	for _, fd := range p.Funcs("encoder") {
+		if fd.Body == nil {
+			continue
+		}
+		name := p.FuncName(fd)
+		// assignments (not definitions) per variable, by position
+		assigns := map[types.Object][]token.Pos{}
+		defs := map[types.Object]*ast.AssignStmt{}
+		ast.Inspect(fd.Body, func(m ast.Node) bool {
+			as, ok := m.(*ast.AssignStmt)
+			if !ok {
+				return true
+			}
+			for _, l := range as.Lhs {
+				id, ok := core.Unparen(l).(*ast.Ident)
+				if !ok {
+					continue
+				}
+				if o := info.Defs[id]; o != nil {
+					defs[o] = as
+				} else if o := info.Uses[id]; o != nil {
+					assigns[o] = append(assigns[o], as.Pos())
+				}
+			}
+			return true
+		})
+		var changedBefore func(e ast.Expr, at token.Pos, depth int) (bool, string)
+		changedBefore = func(e ast.Expr, at token.Pos, depth int) (bool, string) {
+			id, ok := core.Unparen(e).(*ast.Ident)
+			if !ok || depth > 3 {
+				return false, ""
+			}
+			o := core.ObjOf(info, id)
+			for _, pos := range assigns[o] {
+				if pos < at {
+					return true, id.Name
+				}
+			}
+			if d := defs[o]; d != nil && len(d.Lhs) == len(d.Rhs) {
+				for i, l := range d.Lhs {
+					if lid, ok := l.(*ast.Ident); ok && info.Defs[lid] == o {
+						return changedBefore(d.Rhs[i], d.Pos(), depth+1)
+					}
+				}
+			}
+			return false, ""
+		}
+		k := 0
+		ast.Inspect(fd.Body, func(m ast.Node) bool {
+			c, ok := m.(*ast.CallExpr)
+			if !ok || len(c.Args) != 1 {
+				return true
+			}
+			cn := core.CalleeName(info, c)
+			if cn != "encoder.Compiler.marshalJSONCode" && cn != "encoder.Compiler.marshalTextCode" {
+				return true
+			}
+			k++
+			n++
+			rc.Touch(name)
+			changed, which := changedBefore(c.Args[0], c.Pos(), 0)
+			rc.Check(!changed, fmt.Sprintf("%s/marshaler-code#%d for-the-type-received", name, k), c.Pos(), "%s is given %s, and %s was assigned a new value (a peeled pointer) before this point: the program calls the method of that type on the value of the type the function was asked about (for *T with a pointer-shaped T the method receives the address in place of the value)", cn, core.Src(p.Fset, c.Args[0]), which)
+			return true
+		})
+	}
+	if n < 10 {
+		rc.Unknown("encoder/marshaler-code-calls", token.NoPos, "found %d calls of marshalJSONCode/marshalTextCode (confirmed: 13)", n)
+	}
+}
